@@ -212,6 +212,19 @@ def shape_array(coll, n, container="array"):
                  guard=["*g[%d]" % i for i in range(n)])
 
 
+def shape_tuple7():
+    """a 7-tuple: the six universe locks plus one separately allocated mutex"""
+    st, names = picks("MRMRMR")
+    st = st + ["let x6 = new_m(6);"]
+    tup = "(" + ", ".join(names + ["&x6"]) + ")"
+    lty = "(&M, &R, &M, &R, &M, &R, &M)"
+    leaves = [(idexpr(nm, k), k, nm) for nm, k in zip(names, "MRMRMR")] + [("6", "M", "&x6")]
+    build = ["let tup = %s;" % tup,
+             "let coll = match RefLockCollection::try_new(&tup) { Some(c) => c, None => { vcheck!(false, M_DUP_VERDICT); return; } };"]
+    return Shape("rf7_mrmrmrm", "ref", ["let u = universe();"] + st, build, "RefLockCollection::<%s>" % lty, leaves, False,
+                 guard=guard_paths("g", 7), rguard=guard_paths("g", 7))
+
+
 def shape_owned_container(coll, container, n, kind="M"):
     """collection owning an array / Vec / boxed slice of n locks (ids 6..)"""
     setup = ["let o%d = new_%s(%d);" % (i, kind.lower(), 6 + i) for i in range(n)]
@@ -325,6 +338,20 @@ def shape_nested_refs(outer, inner, kinds):
                  guard=paths, rguard=paths)
 
 
+def shape_nested_ref_second(outer):
+    """outer((l2, &RefLockCollection(l0, l1))): a ref collection nested at a non-first position"""
+    st, nm = picks("MRM")
+    cn = {"boxed": "BoxedLockCollection", "retry": "RetryingLockCollection"}
+    build = ["let itup = (l0, l1);",
+             "let inner = match RefLockCollection::try_new(&itup) { Some(c) => c, None => { vcheck!(false, M_DUP_VERDICT); return; } };",
+             "let coll = match %s::try_new((l2, &inner)) { Some(c) => c, None => { vcheck!(false, M_DUP_VERDICT); return; } };" % cn[outer]]
+    ctype = "%s::<(&M, &RefLockCollection<(&M, &R)>)>" % cn[outer]
+    leaves = [(idexpr("l0", "M"), "M", "l0"), (idexpr("l1", "R"), "R", "l1"), (idexpr("l2", "M"), "M", "l2")]
+    paths = ["*(g.1).0", "*(g.1).1", "*g.0"]
+    return Shape("n_%s_rf2" % {"boxed": "bx", "retry": "rt"}[outer], outer, ["let u = universe();"] + st, build, ctype, leaves, False,
+                 guard=paths, rguard=None)
+
+
 def shape_pois_coll(inner):
     """Poisonable wrapped around a collection that owns two locks"""
     cn = {"boxed": "BoxedLockCollection", "retry": "RetryingLockCollection", "owned": "OwnedLockCollection"}[inner]
@@ -369,6 +396,8 @@ def all_shapes(tier):
         sh.append(owned_first(shape_nested(n)))
     sh.append(shape_nested_refs("boxed", "retry", "RRR"))
     sh.append(shape_nested_refs("retry", "boxed", "RRR"))
+    sh.append(shape_nested_ref_second("boxed"))
+    sh.append(shape_nested_ref_second("retry"))
     sh.append(shape_pois_coll("boxed"))
     sh.append(shape_pois_coll("retry"))
     if tier != "quick":
@@ -381,6 +410,17 @@ def all_shapes(tier):
     sh.append(shape_owned_container("boxed", "vec", 3))
     sh.append(shape_owned_container("owned", "array", 3))
     sh.append(shape_owned_container("retry", "slice", 3, "R"))
+    # larger tuple arities (the Lockable impls are macro-generated up to 7): one concrete arrangement
+    saved6 = FIXED_PICKS[0]
+    if saved6 is None:
+        FIXED_PICKS[0] = 0
+    try:
+        sh.append(shape_refs("boxed", "MRMRMR"))
+        sh.append(shape_refs("retry", "RMRMR"))
+        sh.append(shape_tuple7())
+    finally:
+        FIXED_PICKS[0] = saved6
+    sh.append(shape_owned("owned", "MRMRM"))
     # four leaves: one concrete (seeded) arrangement in the quick tier, symbolic in the thorough tier
     saved = FIXED_PICKS[0]
     if tier == "quick" and saved is None:
